@@ -15,7 +15,7 @@ from harness import pyast_wire as W
 
 META = {
     "id": "C02",
-    "technique": "Coq proof (soundness of a line-by-line model of _infer_expr_type w.r.t. the reference Python expression semantics, by induction over expressions and over nested list comprehensions with their var_types bracket; join / declaration / hoisting / signature-alias lemmas; a reference statement semantics with a path oracle and, by mutual induction over statements / blocks / branches, the covering theorem for if / elif / else, while, for, tuple assignment, the main loop and function bodies under an executable fixed-point guard; refutation witnesses by vm_compute) + extracted-model correspondence with the real _infer_expr_type/_cpp_type/_merge_* and with the declaration lines of the emitted C++ + firmware-vs-CPython value oracle",
+    "technique": "Coq proof (C++ name lookup over the emitted prototype block + overload resolution: the overload a call reaches is position independent and is the variant the parser specialised, under call_guard; soundness of a line-by-line model of _infer_expr_type w.r.t. the reference Python expression semantics, by induction over expressions and over nested list comprehensions with their var_types bracket; join / declaration / hoisting / signature-alias lemmas; a reference statement semantics with a path oracle and, by mutual induction over statements / blocks / branches, the covering theorem for if / elif / else, while, for, tuple assignment, the main loop and function bodies under an executable fixed-point guard; refutation witnesses by vm_compute) + extracted-model correspondence with the real _infer_expr_type/_cpp_type/_merge_* and with the declaration lines of the emitted C++ + firmware-vs-CPython value oracle",
     "level_text": "Theorems C02_* (coq/Props/C02.v) are proved for all expressions, all statement trees (if / elif / else, while, for, tuple assignment, returns at any depth), all paths (every oracle of branch choices and loop counts) and all parser states about Gallina models (coq/Lang/Infer.v, Decl.v, StmtRef.v) of the type-label layer of transpile/parser.py; _partial theorems carry an executable guard, each guard clause has a _refuted witness. The models are run against the real functions (direct calls, exact label and mutated var_types) and against the declared C types in the emitted sketch; the property itself is tested on compiled firmware (mock core) against CPython for programs inside the guard.",
     "level_note": "Trusted: Coq kernel, extraction (ExtrOcamlBasic), OCaml driver, translator plug-in harness/gen/c02_infer.py (builtin call table), harness codecs, g++ and the mock Arduino core as 'device', CPython 3.12 as 'Python', PySem.v as the reference expression semantics (validated against CPython's eval). The theorems are about the models; the correspondence bounds their distance from parser.py.",
     "design_ref": "DESIGN.md section 4 C02, Appendix B.1-B.4",
@@ -1733,17 +1733,18 @@ FWD_FIXED = [
     # (items, [(function, call signature labels)]): callers above their helper, the helper with 2 / 3 variants, a widened alias
     ([("def", "sc", ["p"], [("return", "tw(p) + 1")]), ("def", "tw", ["p"], [("return", "p * 2")]),
       ("stmt", ("assign", "x", "1.5")), ("stmt", ("assign", "w", "sc(x)")), ("stmt", ("assign", "a", "tw(3)"))],
-     [("tw", ["float"]), ("tw", ["int"]), ("sc", ["float"])]),
+     [("tw", ["float"], True, ("sc", ["float"])), ("tw", ["int"]), ("sc", ["float"])]),
     ([("def", "top", ["p"], [("assign", "w", "mid(p)"), ("return", "w * 2")]),
       ("def", "mid", ["p"], [("return", "low(p, 1) + low(p, p)")]), ("def", "low", ["p", "q"], [("return", "p + q")]),
       ("stmt", ("assign", "x", "1.5")), ("stmt", ("assign", "b", "True")), ("stmt", ("assign", "r1", "top(x)")),
       ("stmt", ("assign", "r2", "top(b)")), ("stmt", ("assign", "r3", "mid(3)")), ("stmt", ("assign", "r4", "low(x, x)"))],
-     [("low", ["float", "int"]), ("low", ["float", "float"]), ("low", ["bool", "int"]), ("low", ["bool", "bool"]), ("low", ["int", "int"]),
-      ("mid", ["float"]), ("mid", ["bool"]), ("mid", ["int"]), ("top", ["float"]), ("top", ["bool"])]),
+     [("low", ["float", "int"], True, ("mid", ["float"])), ("low", ["float", "float"], True, ("mid", ["float"])),
+      ("low", ["bool", "int"], True, ("mid", ["bool"])), ("low", ["bool", "bool"], True, ("mid", ["bool"])), ("low", ["int", "int"], True, ("mid", ["int"])),
+      ("mid", ["float"], True, ("top", ["float"])), ("mid", ["bool"], True, ("top", ["bool"])), ("mid", ["int"]), ("top", ["float"]), ("top", ["bool"])]),
     # a parameter widened by the body: half(2) is requested as (int), emitted as (float) and reached by conversion (only candidate)
     ([("def", "use", ["p"], [("return", "half(p) + 1")]), ("def", "half", ["p"], [("assign", "p", "p * 0.5"), ("return", "p")]),
       ("stmt", ("assign", "x", "0.5")), ("stmt", ("assign", "a", "use(x)")), ("stmt", ("assign", "c", "half(2)"))],
-     [("half", ["int"]), ("half", ["float"]), ("use", ["float"])]),
+     [("half", ["int"]), ("half", ["float"], True, ("use", ["float"])), ("use", ["float"])]),
     # outside the guard (F-C06-overload-ambiguous region): blend(int, float) is widened to (float, float) while the def-time parse of
     # `use` also makes a (int, int) variant: one argument converts each way, the call is ambiguous
     ([("def", "use", ["p", "q"], [("return", "blend(p, q) + blend(q, q)")]),
@@ -1878,10 +1879,15 @@ def part_g(ctx, stats, sketches):
             protos_w = [[d["name"], [enc_ctype(t) for t in d["ptypes"]]] for d in lay["protos"] if d["before_first_body"]]
             defs_w = [[d["name"], [enc_ctype(t) for t in d["ptypes"]]] for d in lay["defs"]]
             expect = [True if len(x) == 2 else x[2] for x in sigs]
+            where = [x[3] if len(x) > 3 else None for x in sigs]           # the emitted definition in whose body the call is written
             sigs = [(x[0], x[1]) for x in sigs]
+            idx = [real_defs.index((w_[0], list(w_[1]))) if w_ is not None and (w_[0], list(w_[1])) in real_defs else None for w_ in where]
             ms = ctx.model([[16, MODEL_CTX, wire_items(items), f, [enc_label(x) for x in sg]] for f, sg in sigs])
-            picks = ctx.model([[14, protos_w, defs_w, [0, 0], f, [enc_aty(dec_ctype(enc_ctype_of_label(x))) for x in sg]] for f, sg in sigs])
-            for (f, sg), m, pk, want in zip(sigs, ms, picks, expect):
+            picks = ctx.model([[14, protos_w, defs_w, [0, i_] if i_ is not None else [1], f, [enc_aty(x) for x in sg]] for (f, sg), i_ in zip(sigs, idx)])
+            for (f, sg), m, pk, want, w_, i_ in zip(sigs, ms, picks, expect, where, idx):
+                if w_ is not None and i_ is None:
+                    ctx.disagree("fixed forward program: the caller variant the call is written in is not emitted", src[len(HEADER):], w_, real_defs)
+                    continue
                 if m == [2] or not m[0]:
                     ctx.disagree("fixed forward program: the model does not parse it", src[len(HEADER):], m, "accepted")
                     continue
@@ -1899,7 +1905,7 @@ def part_g(ctx, stats, sketches):
                     if reached is not None:
                         ctx.disagree("fixed forward program: a call outside call_guard (ambiguous) resolves in the model", {"script": src[len(HEADER):], "call": [f, sg]}, None, reached)
                 elif meant != reached:
-                    ctx.fail("a call in the top-most function body does not reach the variant the parser specialised for its signature "
+                    ctx.fail("a call written in a function body emitted above its helper does not reach the variant the parser specialised for its signature "
                              "(declarations of the real sketch, C++ overload resolution of Lang/FnProto.v)", {"script": src, "call": [f, sg]},
                              {"meant": meant}, {"reached": reached, "prototypes": [(d["name"], d["ptypes"]) for d in lay["protos"]]}, key="variant-not-reached")
     stats["overload_resolution"] = st
@@ -1910,8 +1916,6 @@ def dec_ctype_list(w):
     return [dec_ctype(t) for t in w]
 
 
-def enc_ctype_of_label(lab):
-    return enc_ctype({"int": "int", "float": "float", "bool": "bool", "String": "String"}[lab])
 
 
 def run(ctx: C.Ctx):
@@ -1974,7 +1978,27 @@ def run(ctx: C.Ctx):
                  "augmented assignments) called under 2-3 signatures with boundary arguments: (f1) exec_block on the body from the bound "
                  "parameters along CPython's recorded path = CPython's stores and returned value; (f2) fn_guard (extracted) per call "
                  "signature in the parser state before the call; when every signature is inside, firmware vs CPython on the whole program. "
-                 "non-trivial for (e)/(f) = guard-accepted programs whose firmware/CPython comparison covers >= 4 (>= 2) values."),
+                 "non-trivial for (e)/(f) = guard-accepted programs whose firmware/CPython comparison covers >= 4 (>= 2) values.  "
+                 "(d) now also draws, for 40 % of its programs, defs in an order in which helpers are called ABOVE their definition "
+                 "(c02_fngen._program_fwd: caller / leaf, top / caller / leaf, caller / leaf / late helper calling the caller, caller / "
+                 "middle / leaf, caller / two leaves; callers reach the leaves with parameters, locals, int and bool literals and "
+                 "expressions, in returns, locals, if/else-hoisted locals and loops; every helper is requested under 2-3 signatures "
+                 "over int / float / bool directly from the top level and through the callers, so leaves get two, three or more "
+                 "variants and the call written in a body emitted above them needs a variant other than the first declared one "
+                 "(counted)); Checker.simulate_defs walks the defs in script order like parse() (a callee without a source is "
+                 "labelled int, its signature stays pending); 3 more fixed class representatives; call arguments may now be + - * "
+                 "expressions over int / float names and int literals (C++ type = label).  "
+                 "(g1) C++ overload resolution: Lang/FnProto.v pick (extracted) vs g++ itself (a SFINAE probe sketch printing the index "
+                 "of the selected candidate or -1) on every candidate set over int/float/bool/String of arity 1 with arguments "
+                 "int/float/bool/String/double, arity-2 sets of 1-3 candidates over int/float/bool with all 16 argument pairs incl. "
+                 "double (quick: all singletons + 45 sampled sets; thorough: all 129 + arity 3 samples), mixed arities.  "
+                 "(g2) every sketch emitted for oracle (d): prototype lines in front of the first body vs the prototype block "
+                 "Lang/FnProto.v emit_sketch writes for the real definitions (as sets; return types of prototype and definition "
+                 "agree); every call of a user function written inside a function body whose arguments are names / literals: the "
+                 "overload reached among the declarations REALLY visible there (extracted model on the real declarations) vs among "
+                 "all emitted variants - a difference that narrows an argument is a violation with the script and the call as replay.  "
+                 "(g3) fixed programs with callers above their helper: emission order of the variants and call_guard of the model "
+                 "(run_items) vs the real sketch; the meant variant is reached from the body the call is written in."),
         "guard": ("expressions: Lang/InferGuard.v guard (no string contagion onto a numeric name, numeric operands, `/` and `**` only with a float "
                   "operand, no unary minus on a bool label, and/or only on bool labels, conditional expression with equal or numeric labels, abs/min/max "
                   "on int/bool labels, uniform or numeric list elements, subscripts of list labels, no tuples). programs (theorem): flat_guard = every "
@@ -2004,14 +2028,23 @@ def run(ctx: C.Ctx):
                   "and store exactly the declared labels; a name hoisted out of an if / a loop ends its block with its declared label and has "
                   "no other C type in the shared promotion table (hoist_ok, promo_ok); return expressions have a scalar label; for function "
                   "bodies every parameter ends the body with its signature label and the body calls no user function (ucf_block). "
-                  "Reference semantics: no break/continue, the target of a for is unbound after its loop."),
+                  "Reference semantics: no break/continue, the target of a for is unbound after its loop.  "
+                  "Calls (theorem C02_call_site_reaches_the_specialised_variant_partial): call_guard of Lang/FnProto.v - the variant the alias "
+                  "table resolves the site's labels to is emitted and either has exactly the argument types or wins C++ overload resolution "
+                  "among all emitted variants of the name (F-C06-overload-ambiguous / F-C02-widened-variant-overwritten regions stay outside: "
+                  "c02_fngen.cxx_pick and overwritten_variants drop such programs).  Forward calls: no emitted variant was parsed while a "
+                  "callee whose variant does not return int had no source (F-C02-forward-call-result-typed-int; Checker.stale_forward_variants)."),
         "unmodelled": [
             "list comprehensions nested inside another operator (len([...]), [...][0], f([...])) stay EOther in Lang/PyAst.v and are labelled int by the "
             "model (the real code labels them list[...]); range() with 2 or 3 arguments and filtered comprehensions; only right-hand sides that ARE a "
             "(possibly nested) comprehension are modelled (Lang/InferComp.v) - the generators draw only those",
             "the constant environment (vars) that _to_c_expr brackets together with var_types around a comprehension target is C03's subject; here it "
             "only enters as an input of correspondence (a') (names bound to constants of every truthiness)",
-            "C++ overload resolution between emitted variants (harness/c02_fngen.cxx_pick keeps generated calls unambiguous); it is not part of the Gallina model",
+            "C++ name lookup and overload resolution are inside the model for the scalar parameter types (Lang/FnProto.v, validated against g++ by (g1)); "
+            "not modelled: argument expressions of class type other than String, string literals (const char* -> String), default arguments, "
+            "templates; the C++ type of an argument EXPRESSION is computed by the harness (names, literals) - oracle (g2) skips call sites with "
+            "other argument shapes, the value oracle (d) still executes them",
+            "the VALUE a forward-called helper returns is covered by oracle (d) only: the reference statement semantics has no user-function calls",
             "the VALUE theorems about function bodies (C02_function_body_covers_partial, C02_function_result_covers_partial) are stated for "
             "bodies that call no user function (ucf_block): the reference expression semantics (Lang/PySem.v) has no user-function calls; a "
             "helper calling a helper is inside the DECLARATION model (parse_function_step: on-demand variants, _refreshing_functions, fuel 24 "
@@ -2036,8 +2069,11 @@ def run(ctx: C.Ctx):
         "trusted_base": C.COMMON_TRUSTED + [
             "harness/gen/c02_infer.py (regenerates coq/Gen/InferTables.v: _BUILTIN_CALL_RETURN_TYPES, annotation labels; fail-closed)",
             "coq/Lang/PySem.v as the meaning of Python expressions (validated against CPython eval by harness/pysem_check.py)",
-            "harness/c02_fngen.py (generator, the abstract kind interpreter that keeps generated helper programs inside the guard, cxx_pick: a "
-            "three-rank model of C++ overload resolution used only to DROP generated programs)",
+            "harness/c02_fngen.py (generator, the abstract kind interpreter that keeps generated helper programs inside the guard incl. its "
+            "simulation of the def-time / on-demand parse order, cxx_pick: a three-rank model of C++ overload resolution used only to DROP "
+            "generated programs)",
+            "regex extraction of prototype lines, definitions, declared names and simple call sites from the emitted sketch "
+            "(harness/props/c02.py sketch_layout, call_sites); the SFINAE probe sketch of (g1) with g++ as the definition of C++ overload resolution",
             "harness/c02_ctl.py + harness/impl/c02_ctl_impl.py (generators; the instrumented rendering that makes CPython record its decisions and stores)",
             "harness/pyast_wire.py + label/program codecs in harness/props/c02.py; regex extraction of declaration lines from the emitted sketch (harness/impl/c02_impl.py cpp_decls)",
             "mock Arduino core (mock/) + g++ -O0 as 'the device'; CPython 3.12 + harness/impl/pyrun_impl.py as 'what Python holds'",
@@ -2047,6 +2083,6 @@ def run(ctx: C.Ctx):
     ctx.assumptions += [
         "floats are exact rationals in the models; generated float literals are dyadic with small denominators",
         "C int is unbounded in the models (no-overflow guard of C01); generated values stay far below 2^31",
-        "theorems are about the Gallina models Lang/Infer.v, Lang/Decl.v and Lang/StmtRef.v; their distance from parser.py / CPython is bounded by correspondences (a), (b), (e1), (f1)",
+        "theorems are about the Gallina models Lang/Infer.v, Lang/Decl.v, Lang/StmtRef.v and Lang/FnProto.v; their distance from parser.py / emitter.py / CPython / g++ is bounded by correspondences (a), (b), (e1), (f1), (g1)-(g3)",
         "a script's conditions and loop bounds may evaluate to anything: the covering theorems quantify over every oracle",
     ]
